@@ -7,10 +7,13 @@ Units.  Amounts are integers in units of 1/A step, times integers in ticks of 1/
 of two, magnitudes far below 2**52/A), so every float the real code computes by + and - is exact and
 `to_units` can turn it back into the integer the Lean model works with.
 """
+import collections
 import io
 import math
 import threading
 from fractions import Fraction
+
+STATS = collections.Counter()  # which derived values the dumps actually exercised (copied into the evidence)
 
 
 class DomainError(Exception):
@@ -187,6 +190,25 @@ def close(real, exact):
     return abs(r - exact) <= REL * max(1, abs(exact))
 
 
+class Raised:
+    """a derived-value getter of the real task raised"""
+
+    def __init__(self, e):
+        self.cls = type(e).__name__
+
+    def __repr__(self):
+        return "raise:" + self.cls
+
+
+def get(task, attr):
+    try:
+        return getattr(task, attr)
+    except DomainError:
+        raise
+    except Exception as e:  # noqa: BLE001
+        return Raised(e)
+
+
 def exact_percentage(total, completed):
     total, completed = Fraction(total), Fraction(completed)
     if total == 0:
@@ -219,8 +241,10 @@ def exact_time_remaining(task):
 def canon_time_remaining(task):
     """canonical answer: the exact ceiling if the real value is the ceiling of a float within rounding
     distance of the exact quotient, else the real value marked as deviating."""
-    real = task.time_remaining
+    real = get(task, "time_remaining")
     want = exact_time_remaining(task)
+    if isinstance(real, Raised):
+        return repr(real)
     if want is None or real is None:
         return "_" if (want is None and real is None) else f"float:{real!r}"
     if task.finished_time is not None:
@@ -238,22 +262,28 @@ def dump_task(task, u, elapsed=False):
     completed = to_units(task.completed, A)
     samples = " ".join(f"{to_units(s.timestamp, T)}:{to_units(s.completed, A)}" for s in task._progress)
     pe = exact_percentage(task.total, task.completed)
-    pr = task.percentage
+    pr = get(task, "percentage")
     pct = frac(pe) if close(pr, pe) and isinstance(pr, float) else f"float:{pr!r}"
     se = exact_speed(task)
-    sr = task.speed
+    sr = get(task, "speed")
     if se is None or sr is None:
         sp = "_" if (se is None and sr is None) else f"float:{sr!r}"
     else:
         sp = frac(se * A / T) if close(sr, se) else f"float:{sr!r}"
+    tr = canon_time_remaining(task)
+    STATS["dump:speed=" + ("none" if sp == "_" else "value")] += 1
+    STATS["dump:time_remaining=" + ("none" if tr == "_" else "zero" if tr == "0" else "value")] += 1
+    STATS["dump:percentage=" + ("0" if pct == "0/1" else "100" if pct == "100/1" else "between")] += 1
+    STATS["dump:samples=" + str(min(len(task._progress), 3)) + ("+" if len(task._progress) >= 3 else "")] += 1
     fields = [
         str(task.id), str(total), str(completed), opt(to_units(task.finished_time, T)),
         "1" if task.visible else "0", opt(to_units(task.start_time, T)), opt(to_units(task.stop_time, T)),
-        samples, pct, sp, canon_time_remaining(task),
+        samples, pct, sp, tr,
         ("1" if task.started else "0") + ("1" if task.finished else "0"), str(to_units(task.remaining, A)),
     ]
     if elapsed:
-        fields.append(opt(to_units(task.elapsed, T)))
+        el = get(task, "elapsed")
+        fields.append(repr(el) if isinstance(el, Raised) else opt(to_units(el, T)))
     return ",".join(fields)
 
 
@@ -331,9 +361,10 @@ def evaluate(ctx, p, spec, op, res, before, site, inp, check_time=True, classify
         ok_all &= ctx.check(Fraction(t.completed) == want, site + ":completed_exact", inp,
                             f"task {i}: completed={t.completed!r}, last set value + advances since = {want}")
         pe = exact_percentage(t.total, t.completed)
-        ok_all &= ctx.check(isinstance(t.percentage, float) and close(t.percentage, pe) and 0.0 <= t.percentage <= 100.0,
+        pr = get(t, "percentage")
+        ok_all &= ctx.check(isinstance(pr, float) and close(pr, pe) and 0.0 <= pr <= 100.0,
                             site + ":percentage_spec", inp,
-                            f"task {i}: percentage={t.percentage!r} for completed={t.completed!r} total={t.total!r} (exact {pe})")
+                            f"task {i}: percentage={pr!r} for completed={t.completed!r} total={t.total!r} (exact {pe})")
         if res == "ok" and k in ("V", "U") and tgt == i and t.started and Fraction(t.completed) >= Fraction(t.total):
             ok_all &= ctx.check(t.finished and t.finished_time is not None, site + ":finished_after_reaching_total", inp,
                                 f"task {i} started, completed={t.completed!r} >= total={t.total!r} after {op} but finished={t.finished}")
@@ -343,16 +374,16 @@ def evaluate(ctx, p, spec, op, res, before, site, inp, check_time=True, classify
                 ok_all &= ctx.check(t.finished_time == before[i][1], site + ":finish_time_stable", inp,
                                     f"task {i}: finished_time went {before[i][1]!r} -> {t.finished_time!r} across {op}")
         if check_time and not spec.neg[i]:
-            sp = t.speed
-            good = sp is None or sp >= 0
+            sp = get(t, "speed")
+            good = sp is None or (not isinstance(sp, Raised) and sp >= 0)
             ok_all &= ctx.check(good, site + ":speed_nonneg", inp,
                                 f"task {i}: speed={sp!r} with samples {list(t._progress)!r}",
                                 finding=None if good or classify is None else classify(t))
             if not spec.cold[i]:
-                tr = t.time_remaining
-                good = tr is None or tr >= 0
+                tr = get(t, "time_remaining")
+                good = tr is None or (not isinstance(tr, Raised) and tr >= 0)
                 ok_all &= ctx.check(good, site + ":remaining_nonneg_when_running", inp,
-                                    f"task {i}: time_remaining={tr!r} (completed={t.completed!r} total={t.total!r} speed={t.speed!r})",
+                                    f"task {i}: time_remaining={tr!r} (completed={t.completed!r} total={t.total!r} speed={get(t, 'speed')!r})",
                                     finding=None if good or classify is None else classify(t))
     return ok_all
 
@@ -463,14 +494,17 @@ class LockProxy:
         self.sched = sched
         self.real = threading.RLock()
         self.depth = {}
+        self.acq_count = {}
 
     def held(self):
         return self.depth.get(self.sched.current(), 0) > 0
 
     def acquire(self, *a, **k):
         tid = self.sched.current()
-        if tid is not None and self.depth.get(tid, 0) == 0:
-            self.sched.yield_point("c")
+        if self.depth.get(tid, 0) == 0:
+            self.acq_count[tid] = self.acq_count.get(tid, 0) + 1
+            if tid is not None:
+                self.sched.yield_point("c")
         r = self.real.acquire(*a, **k)
         self.depth[tid] = self.depth.get(tid, 0) + 1
         return r
@@ -486,6 +520,19 @@ class LockProxy:
 
     def __exit__(self, *a):
         self.release()
+
+
+def make_guarded_task_class(sched, lock, violations):
+    """rich.progress.Task whose attribute writes by scheduled threads are checked against the lock"""
+    import rich.progress as rp
+
+    class GuardedTask(rp.Task):
+        def __setattr__(self, k, v):
+            if sched.current() is not None and not lock.held():
+                violations.append(k)
+            object.__setattr__(self, k, v)
+
+    return GuardedTask
 
 
 class SchedEvent:
@@ -521,7 +568,7 @@ def make_track_thread_class(sched, seen_log):
         @property
         def completed(self):
             if sched.current() == self._tid:
-                seen_log.append(self._count)
+                seen_log.append((self._count, bool(self.done.flag)))
             return self._count
 
         @completed.setter
